@@ -263,7 +263,11 @@ func (b *BlockList) readBlocklists() error {
 				return fmt.Errorf("error opening file: %w", err)
 			}
 
-			if err = b.parseHostFile(file); err != nil {
+			// The file persist() writes is the in-memory list itself:
+			// every line of it is an entry, also one an earlier line
+			// already covers.
+			exact := filepath.Base(path) == "local"
+			if err = b.parseHostFile(file, exact); err != nil {
 				_ = file.Close()
 				return fmt.Errorf("error parsing hostfile: %w", err)
 			}
@@ -287,7 +291,12 @@ func (b *BlockList) readBlocklists() error {
 	return nil
 }
 
-func (b *BlockList) parseHostFile(file *os.File) error {
+// parseHostFile adds the names listed in file. Names an entry loaded
+// earlier already blocks are skipped, which keeps large overlapping
+// remote lists small - unless exact is set: then every name becomes an
+// entry of its own, so that removing the covering parent or wildcard
+// later does not silently unblock it.
+func (b *BlockList) parseHostFile(file *os.File, exact bool) error {
 	scanner := bufio.NewScanner(file)
 	for scanner.Scan() {
 		line := scanner.Text()
@@ -323,7 +332,7 @@ func (b *BlockList) parseHostFile(file *os.File) error {
 				break
 			}
 			canonical := dns.CanonicalName(n)
-			if !b.Exists(canonical) {
+			if exact || !b.Exists(canonical) {
 				b.set(canonical)
 			}
 		}
